@@ -36,6 +36,8 @@ def parseNode (t : String) : Option NodeTok :=
   | ["alert"] => some ⟨.alert handlerQueue, .alertOutput⟩
   | ["udf"] => some ⟨.udf, .udf⟩
   | ["loop"] => some ⟨.loop, .loopback⟩
+  | ["barrier", _] | ["pbarrier", _] => some ⟨.barrier true, .plain⟩
+  | ["barriernd", _] => some ⟨.barrier false, .plain⟩
   | ["influx", b] => b.toNat?.map (fun b => ⟨.influx b, .influxOutput⟩)
   | ["fail", k] => k.toNat?.map (fun k => ⟨.fail k, .failing⟩)
   | _ => none
@@ -70,7 +72,7 @@ def parseOuts (t : String) : Option (List OutObs) :=
 /-! ### Scheduling policies -/
 
 def nodeOrderPipe : List NAct := [.handle, .put, .take, .init, .closeOut, .exit, .putErr, .enqDrop]
-def nodeOrderStop : List NAct := [.helperExit, .enqDrop, .putErr, .exit, .closeOut, .init, .put, .take, .handle]
+def nodeOrderStop : List NAct := [.timerFire, .helperExit, .enqDrop, .putErr, .exit, .closeOut, .init, .put, .take, .handle]
 
 /-- pipeline first, downstream nodes first; the stop goroutine and the write-buffer exit last. -/
 def prioPipe (s : State) : List Act :=
@@ -116,7 +118,7 @@ def actName : Act → String
   | .forkExit => "forkExit" | .stop => "stop" | .thrExit => "thrExit"
   | .node _ a => match a with
     | .init => "init" | .take => "take" | .put => "put" | .putErr => "putErr" | .enqDrop => "enqDrop" | .closeOut => "closeOut"
-    | .exit => "exit" | .tick => "tick" | .handle => "handle" | .helperExit => "helperExit"
+    | .exit => "exit" | .tick => "tick" | .handle => "handle" | .helperExit => "helperExit" | .timerFire => "timerFire"
 
 structure Run where
   s : State
@@ -145,6 +147,7 @@ structure Pred where
   lostIngest : Nat
   lostAt : List (Nat × Nat)  -- (node index, lost) for nodes that lost something
   failed : Bool
+  crashed : Bool
   seen : List String
 
 def isOutput : Kind → Bool
@@ -160,6 +163,7 @@ def predOf (r : Run) : Pred :=
     lostIngest := s.lostIngest
     lostAt := (ns.filter (fun p => p.1.lost + p.1.dropped > 0 || (p.1.done && p.1.inq > 0))).map (fun p => (p.2, p.1.lost + p.1.dropped + p.1.inq))
     failed := s.nodes.any (fun nd => nd.failed)
+    crashed := s.nodes.any (fun nd => nd.panicked)
     seen := r.seen }
 
 /-- Replay the class of the case under one of the two extreme policies. -/
@@ -214,7 +218,7 @@ def judge (_id : String) (lines : Array String) : Verdict := Id.run do
   let mustHang := !pS.returned && !pP.returned && !pF.returned
   let anyFailed := pS.failed || pP.failed || pF.failed
   let mut br : List String := [clsT, stopT] ++ (toks.map (fun t => (t.kind |> fun k => match k with
-      | .pass => "k-pass" | .post => "k-post" | .alert _ => "k-alert" | .influx _ => "k-influx" | .udf => "k-udf" | .fail _ => "k-fail" | .loop => "k-loop"))).eraseDups
+      | .barrier _ => "k-barrier" | .pass => "k-pass" | .post => "k-post" | .alert _ => "k-alert" | .influx _ => "k-influx" | .udf => "k-udf" | .fail _ => "k-fail" | .loop => "k-loop"))).eraseDups
   for nm in (pS.seen ++ pP.seen).eraseDups do br := br ++ [nm]
   if pS.lostIngest > 0 || pP.lostIngest > 0 then br := br ++ ["ingest-loss"]
   if !pS.lostAt.isEmpty || !pP.lostAt.isEmpty then br := br ++ ["node-loss"]
@@ -225,7 +229,10 @@ def judge (_id : String) (lines : Array String) : Verdict := Id.run do
   -- the observation
   match obs with
   | ["invalid"] => return .mismatch s!"the harness could not run the case: {l}"
-  | ["panic"] => return .specfail "stop-completes" "the real code panicked (process died)"
+  | ["panic"] =>
+    -- the process died: the property is violated; no recorded deviation allows it
+    let canCrash := pS.crashed || pP.crashed || pF.crashed
+    return .specfail "no-crash" s!"the real code panicked (the harness child process died); model can crash: {canCrash}"
   | ["stuck"] => return .specfail "stop-completes" "the harness child process got stuck"
   | [accT, stopres, censusT, outsT, lateT, nodeErrT] =>
     let some acc := accT.toNat? | return .badop l
